@@ -95,7 +95,7 @@ def run(tier, seed, replay):
     # 3. groups, every insertion order
     if gcases:
         if tier == "quick":
-            gcases = rnd.sample(gcases, min(len(gcases), 150))
+            gcases = rnd.sample(gcases, min(len(gcases), 450))
         units = []
         for ci, case in enumerate(gcases):
             for v, srcs in semrun.build_sources(case, rnd, 1 if tier == "quick" else 2):
